@@ -604,6 +604,16 @@ Definition d_apply (s : dstate) (kind : string) (a : list N) (data : list N) (rl
   else if String.eqb kind "get_protocol_features" then
     control s (hasd (d_features s) PFB) true true
             (fun s => (s, DOk [N.lor (N.land (d_pfeatures s) PF_ALL) VhostUserProtocolFeatures_REPLY_ACK]))
+  else if String.eqb kind "reconnect" then
+    (* a new frontend on a new connection to the same daemon: everything the handler keeps (rings, registrations, memory
+       and translation tables, log, owner, acknowledged features) persists; what the request server and the frontend
+       endpoint had negotiated on the old connection does not *)
+    let s1 := set_misc s (d_owned s) (d_acked s) (d_acked_proto s) 0 0 0 0 32768 in
+    ({| d_nq := d_nq s1; d_maxq := d_maxq s1; d_features := d_features s1; d_pfeatures := d_pfeatures s1; d_masks := d_masks s1;
+        d_rings := d_rings s1; d_regs := d_regs s1; d_pending := d_pending s1; d_fe_holds := d_fe_holds s1; d_next_inst := d_next_inst s1;
+        d_owned := d_owned s1; d_acked := d_acked s1; d_acked_proto := d_acked_proto s1; d_rq_acked := d_rq_acked s1;
+        d_rq_acked_proto := d_rq_acked_proto s1; d_fe_avf := d_fe_avf s1; d_fe_apf := d_fe_apf s1; d_fe_maxq := d_fe_maxq s1;
+        d_dead := false; d_mem := d_mem s1; d_worker_dead := d_worker_dead s1 |}, VS "ok")
   else if String.eqb kind "set_protocol_features" then
     let v := N.land q PF_ALL in
     if negb (hasd (d_features s) PFB) then (s, VS "err")
